@@ -788,7 +788,7 @@ func c17Bounds() *vgBounds {
 	b := &vgBounds{Forms: vgAllForms(), Kinds: append(vgAllKinds(), vkVarAnon)}
 	if vx.Thorough() {
 		b.MaxN = 4
-		b.MaxEdges = []int{0, -1, -1, 4, 1}
+		b.MaxEdges = []int{0, -1, -1, -1, 1}
 		b.MaxExp = []int{0, 1, 2, 1, 1}
 		b.CoreFrom = 4
 	} else {
